@@ -6,7 +6,14 @@ import (
 	"errors"
 )
 
+// ToJSONRaw 序列化。save 参数仅为兼容保留: 循环引用检测按容器本体(而不是 *VMValue 包装)进行，
+// 因为同一个数组/字典在变量表里会有多个 *VMValue 包装
 func (v *VMValue) ToJSONRaw(save map[*VMValue]bool) ([]byte, error) {
+	return v.toJSONSeen(map[any]bool{})
+}
+
+// toJSONSeen seen 记录当前递归路径上的容器，离开时移除，因此同一容器出现两次(非循环)是允许的
+func (v *VMValue) toJSONSeen(seen map[any]bool) ([]byte, error) {
 	if v == nil {
 		return nil, errors.New("nil pointer")
 	}
@@ -35,7 +42,12 @@ func (v *VMValue) ToJSONRaw(save map[*VMValue]bool) ([]byte, error) {
 		x.TypeId = v.TypeId
 		x.Value.Expr = cd.Expr
 		if cd.Attrs != nil {
-			attrJson, err := cd.Attrs.ToJSON()
+			if seen[cd] {
+				return nil, errors.New("值错误: 序列化时检测到循环引用")
+			}
+			seen[cd] = true
+			defer delete(seen, cd)
+			attrJson, err := cd.Attrs.toJSONSeen(seen)
 			if err != nil {
 				return nil, err
 			}
@@ -44,17 +56,15 @@ func (v *VMValue) ToJSONRaw(save map[*VMValue]bool) ([]byte, error) {
 		return json.Marshal(x)
 
 	case VMTypeArray:
-		if save == nil {
-			save = map[*VMValue]bool{}
-		}
-		if _, exists := save[v]; exists {
+		if seen[v.Value] {
 			return nil, errors.New("值错误: 序列化时检测到循环引用")
 		}
-		save[v] = true
+		seen[v.Value] = true
+		defer delete(seen, v.Value)
 		ad, _ := v.ReadArray()
 		lst := [][]byte{}
 		for _, i := range ad.List {
-			json_data, err := i.ToJSONRaw(save)
+			json_data, err := i.toJSONSeen(seen)
 			if err != nil {
 				return nil, err
 			}
@@ -68,16 +78,14 @@ func (v *VMValue) ToJSONRaw(save map[*VMValue]bool) ([]byte, error) {
 		return bytes.Join(lst2, []byte("")), nil
 
 	case VMTypeDict:
-		if save == nil {
-			save = map[*VMValue]bool{}
-		}
-		if _, exists := save[v]; exists {
+		if seen[v.Value] {
 			return nil, errors.New("值错误: 序列化时检测到循环引用")
 		}
-		save[v] = true
+		seen[v.Value] = true
+		defer delete(seen, v.Value)
 		cd := v.MustReadDictData()
 
-		dictJson, err := cd.Dict.ToJSON()
+		dictJson, err := cd.Dict.toJSONSeen(seen)
 		if err != nil {
 			return nil, err
 		}
